@@ -64,6 +64,7 @@ pub fn run(which: &str, seed: u64, limit: usize, timeout_s: u64) -> i32 {
             Status::Timeout => bump(tag, "timeout"),
             Status::Died(m) => { bump(tag, "DIED"); examples.push(format!("DIED {} [{}] {}", fam[i].1.name, cfg_text(&fam[i].1.cfg), m)); }
             Status::BadConfig(_) => bump(tag, "badconfig"),
+            Status::Infra(_) => bump(tag, "infra"),
         }
         if r.clean() {
             let o = &r.out;
